@@ -1527,3 +1527,85 @@ Proof.
   specialize (B s ltac:(apply in_seq; lia)). rewrite forallb_forall in B. specialize (B k ltac:(apply in_seq; lia)).
   apply andb_true_iff in B. destruct B as [B1 B2]. apply Z.leb_le in B1. apply Z.ltb_lt in B2. lia.
 Qed.
+
+Local Open Scope Z_scope.
+(* ------------------------------------------------------------------ M. the edge relation of a set of simplices *)
+Theorem tri_neighbors_spec simplices a b :
+  In b (tri_neighbors simplices a) <-> exists s, In s simplices /\ In a s /\ In b s /\ b <> a.
+Proof.
+  unfold tri_neighbors. rewrite nodup_In, in_flat_map. split.
+  - intros [s [Hs Hin]]. exists s. split; [exact Hs|].
+    destruct (existsb (Z.eqb a) s) eqn:E; [|destruct Hin].
+    apply existsb_exists in E. destruct E as [x [Hx Ex]]. apply Z.eqb_eq in Ex. subst x.
+    apply filter_In in Hin. destruct Hin as [Hb Hne]. apply negb_true_iff, Z.eqb_neq in Hne. auto.
+  - intros [s [Hs [Ha [Hb Hne]]]]. exists s. split; [exact Hs|].
+    assert (E : existsb (Z.eqb a) s = true) by (apply existsb_exists; exists a; split; [exact Ha | apply Z.eqb_refl]).
+    rewrite E. apply filter_In. split; [exact Hb|]. apply negb_true_iff, Z.eqb_neq. exact Hne.
+Qed.
+Theorem tri_neighbors_symmetric simplices a b : In b (tri_neighbors simplices a) -> In a (tri_neighbors simplices b).
+Proof.
+  rewrite !tri_neighbors_spec. intros [s [Hs [Ha [Hb Hne]]]]. exists s. repeat split; auto.
+Qed.
+
+(* ------------------------------------------------------------------ N. per-sub-pixel weights, stated without a mask *)
+Local Open Scope R_scope.
+Lemma count_unmasked_row L : count_unmasked [repeat false L] = L.
+Proof.
+  unfold count_unmasked. cbn [concat]. rewrite app_nil_r.
+  induction L as [|L IH]; cbn; [reflexivity | rewrite IH; reflexivity].
+Qed.
+Lemma offset_ones L : forall k, (k <= L)%nat -> offset (repeat 1%nat L) k = k.
+Proof.
+  induction L as [|L IH]; intros k Hk.
+  - assert (k = 0%nat) by lia. subst. reflexivity.
+  - destruct k as [|k]; [reflexivity|]. cbn [repeat offset]. rewrite IH by lia. reflexivity.
+Qed.
+Lemma total_sub_ones L : total_sub (repeat 1%nat L) = L.
+Proof. unfold total_sub. rewrite repeat_length. apply offset_ones. lia. Qed.
+
+(* rectangular: the listed weight of grid point s towards source pixel p is the indicator of "cell p contains it" *)
+Theorem rect_weight_is_cell_indicator n0 n1 (grid : list Rpt) (b : R) : (0 < n0)%Z -> (0 < n1)%Z -> 0 < b ->
+  let g := @overlay ROps (n0, n1) grid b in
+  forall s p, (s < length grid)%nat -> (p < Z.to_nat (n0 * n1))%nat ->
+    listed_weight (fst (fst (@rect_psw ROps g grid))) (snd (fst (@rect_psw ROps g grid))) (snd (@rect_psw ROps g grid)) s p
+    = @rect_weight ROps (@geom_of_extent ROps (n0, n1) grid b) (nth s grid (0, 0)) p.
+Proof.
+  intros H0 H1 Hb g s p Hs Hp.
+  apply (rect_listed [repeat false (length grid)] (repeat 1%nat (length grid)) grid n0 n1 b); auto.
+  - rewrite repeat_length, count_unmasked_row. reflexivity.
+  - rewrite total_sub_ones. reflexivity.
+Qed.
+(* Delaunay: the listed weight is del_w (area ratios of the reported simplex / nearest-vertex indicator) *)
+Theorem del_weight_is_claimed (grid points : list Rpt) simplices simplex_for :
+  length simplex_for = length grid ->
+  (forall row, In row simplices ->
+    exists a b c, row = [a; b; c] /\ (0 <= a < Z.of_nat (length points))%Z /\ (0 <= b < Z.of_nat (length points))%Z
+                  /\ (0 <= c < Z.of_nat (length points))%Z
+                  /\ crossR (vtxR points row 0) (vtxR points row 1) (vtxR points row 2) <> 0) ->
+  (forall t, In t simplex_for -> t = (-1)%Z \/ (0 <= t < Z.of_nat (length simplices))%Z) ->
+  let mp := fst (@del_mappings ROps grid simplex_for simplices points) in
+  forall s p, (s < length grid)%nat ->
+    listed_weight mp (snd (@del_mappings ROps grid simplex_for simplices points)) (@del_weights ROps grid points mp) s p
+    = del_w grid points simplices simplex_for s p.
+Proof.
+  intros HF Hsimp Hidx mp s p Hs.
+  apply (del_listed [repeat false (length grid)] (repeat 1%nat (length grid)) grid points simplices simplex_for); auto.
+  - rewrite repeat_length, count_unmasked_row. reflexivity.
+  - rewrite total_sub_ones. reflexivity.
+Qed.
+
+(* inside the reported simplex (the oracle's contract) the claimed weight is the barycentric one *)
+Theorem del_w_barycentric (grid points : list Rpt) simplices simplex_for s p :
+  nth s simplex_for (-1)%Z <> (-1)%Z ->
+  let q := nth s grid (0, 0) in
+  let row := nth (Z.to_nat (nth s simplex_for (-1)%Z)) simplices [] in
+  crossR (vtxR points row 0) (vtxR points row 1) (vtxR points row 2) <> 0 ->
+  @in_triangle ROps (vtxR points row 0) (vtxR points row 1) (vtxR points row 2) q = true ->
+  del_w grid points simplices simplex_for s p =
+  let '(b0, b1, b2) := @bary ROps (vtxR points row 0) (vtxR points row 1) (vtxR points row 2) q in
+  (if Z.eqb (nthZ row 0) (Z.of_nat p) then b0 else 0) + (if Z.eqb (nthZ row 1) (Z.of_nat p) then b1 else 0)
+  + (if Z.eqb (nthZ row 2) (Z.of_nat p) then b2 else 0).
+Proof.
+  intros Ht q row Hd Hin. unfold del_w. fold q. destruct (Z.eqb_spec (nth s simplex_for (-1)%Z) (-1)); [contradiction|].
+  fold row. rewrite (area_weights_barycentric _ _ _ _ Hd Hin). reflexivity.
+Qed.
